@@ -159,7 +159,7 @@ def run_case(case):
         HASHES[:] = [s['hash'] for s in strings][:400]
         data = build(rng, k)
         raw = bytes(data)
-        lines = parse_dump_data(memoryview(raw), hdr, strf)
+        lines = parse_dump_data(drawer.view(raw, k // 4), hdr, strf)
         rec = dict(family='C17', shape_ok=True, data=data, sections=[], alone=[], bounds=[], file_same=True,
                    empty_out=(lines == []))
         try:
